@@ -256,7 +256,7 @@ class SR:
 
     def _cmp(self, o, f):
         if o is None or not _scalar(o):
-            return NotImplemented
+            return NotImplemented  # e.g. comparison with the IEEE infinity object: its reflected method decides
         return mkbool(f(self.t, z3num(o)))
 
     def __lt__(self, o):
@@ -447,6 +447,10 @@ class State:
     # obligations
     def prove(self, name, goal, kind="vc", func=None):
         return self.ex.prove(self, name, goal, kind, func)
+
+    def prove_or_assume(self, what, cond):
+        """obligation when crash-freedom is part of the claim (safety on), assumption otherwise"""
+        self.safety(what, cond)
 
     def safety(self, what, cond):
         if self.safety_on:
